@@ -290,7 +290,12 @@ def run(ctx):
         rendered.add(tuple(pieces))
         good = good and len(pieces) == 3 and isinstance(pieces[0], str) and _re.fullmatch(r"%0[48]X   %-", pieces[0]) is not None and pieces[1] == want_width and pieces[2] == "s   %s"
     good = good and {pc[0] for pc in rendered if pc and isinstance(pc[0], str)} == {"%04X   %-", "%08X   %-"}
-    ctx.ob("C20.R4", fh, good, "every size branch of hexdump left-justifies the hex field to 3*linesize-1 columns between three-space separators (%s)" % sorted(w[0] for w in widths), key="hex field width")
+    hex_lines_found = bool(widths)
+    if not hex_lines_found:
+        # no `lines.append(<fmt> % (offset, hex, text))` inside a loop of hexdump itself (the lines come from a nested function, a generator, ...):
+        # the column rules have nothing to read -- undecided, not violated
+        ctx.error("C20.R4 undecided: hexdump does not append its formatted lines in a loop of its own; the column rules know that form only")
+    ctx.ob("C20.R4", fh, good or not hex_lines_found, "every size branch of hexdump left-justifies the hex field to 3*linesize-1 columns between three-space separators (%s)" % sorted(w[0] for w in widths), key="hex field width")
     # prologue / epilogue lines
     rets = [p for p in ph if p.returns]
     pro = epi = None
@@ -309,7 +314,10 @@ def run(ctx):
             if x[0] == "sub" and x[2][0] == "slice" and x[1][0] == "call" and x[1][1][0] == "attr" and x[1][1][1] == ("param", "data") and x[1][1][2] in ("split", "splitlines") \
                     and all(y == N.NONE or N.is_int(y) for y in x[2][1:3]) and x[2][3] == N.NONE:
                 sl = (0 if x[2][1] == N.NONE else x[2][1][2], 0 if x[2][2] == N.NONE else x[2][2][2])
-    ctx.ob("C20.R4", fu, sl is not None and sl == (pro, -epi), "hexdump writes %s prologue and %s epilogue line(s); hexundump drops %s" % (pro, epi, sl), key="prologue/epilogue")
+    if sl is None or not hex_lines_found:
+        if sl is None:
+            ctx.error("C20.R4 undecided: hexundump does not take a constant slice of the dump's lines; the prologue/epilogue rule knows that form only")
+    ctx.ob("C20.R4", fu, (sl is not None and sl == (pro, -epi)) or sl is None or not hex_lines_found, "hexdump writes %s prologue and %s epilogue line(s); hexundump drops %s" % (pro, epi, sl), key="prologue/epilogue")
     cut = [x for p in pu for e in p.events for v in e.a.values() if isinstance(v, tuple) for x in N.walk(v) if x[0] == "slice"]
     cuts = {x[2] for x in cut if x[1] == N.NONE and x[2] != N.NONE and N.contains(x[2], ls)}
     ctx.ob("C20.R4", fu, cuts == {N.mk_mul(N.const(3), ls)}, "hexundump cuts each line at 3*linesize after the offset column (covers the 3*linesize-1 wide hex field, stops before the printable column)", key="reader cut")
@@ -335,7 +343,7 @@ def run(ctx):
                 okhex = hexs[0] == "call" and hexs[1] == ("attr", N.const(" "), "join") and hexs[2][0][0] == "comp" and hexs[2][0][3][0][0] == line \
                     and hexs[2][0][2][0] == "sub" and hexs[2][0][2][1] == ("free", "HEXPRINT") and hexs[2][0][2][2][0] == "elem" and hexs[2][0][2][2][1] == line
                 good = okline and okhex
-    ctx.ob("C20.R4", fh, good, "each dump line shows offset i and HEXPRINT[b] for the bytes data[i:i+linesize] joined by single blanks, i stepping by linesize from 0", key="line content")
+    ctx.ob("C20.R4", fh, good or not hex_lines_found, "each dump line shows offset i and HEXPRINT[b] for the bytes data[i:i+linesize] joined by single blanks, i stepping by linesize from 0", key="line content")
     hp = M.module_assigns[[r for r in M.modules if r.endswith("hex.py")][0]].get("HEXPRINT")
     okp = isinstance(hp, ast.ListComp) and ast.dump(hp.elt) == ast.dump(ast.parse("format(%s, '02X')" % hp.generators[0].target.id, mode="eval").body) if isinstance(hp, ast.ListComp) and isinstance(hp.generators[0].target, ast.Name) else False
     ctx.ob("C20.R4", "HEXPRINT", bool(okp), "HEXPRINT[i] is format(i, '02X'): exactly two upper-case hex digits per byte", key="HEXPRINT", loc="construct/lib/hex.py")
